@@ -1579,7 +1579,14 @@ func (fr *Frame) sliceOp(st *State, x *ssa.Slice) *Val {
 		if fr.Safety && c.noObligations == 0 {
 			c.oblige(fr, "safe", "slice@"+c.posKey(x.Pos()), st, And(Le(Num(0), lo), Le(lo, hi), Le(hi, mx), Le(mx, n)), "array slice bounds", x.Pos())
 		}
+		// a[:] of a byte array of at most 64 bytes: its abstract byte string is arrbytes(value of the array, n)
+		wholeBytes := func(content *Term) {
+			if eb, ok := under(arr.Elem()).(*types.Basic); ok && eb.Kind() == types.Uint8 && arr.Len() <= 64 && lo.IsConst() && lo.Val.Sign() == 0 && hi == n {
+				c.addFact(Eq(c.bytesVal(content, Num(0), n), App("arrbytes", SInt, arrAsInt(&Val{K: KArr, T: bt.Elem(), X: content}), n)))
+			}
+		}
 		if base.Cell == nil && strings.HasPrefix(base.Root, "S:") && base.Idx == nil {
+			wholeBytes(Select(st.heapGet(heapKey("S:"+tstr(arr.Elem()), ""), SArr(SInt, SArr(SInt, sortOf(arr.Elem())))), base.X))
 			return &Val{K: KSlice, T: x.Type(), X: base.X, Off: lo, Len: Sub(hi, lo), Cap: Sub(mx, lo)}
 		}
 		// slice of an array that lives inside a struct or a local cell: read-only copy into a fresh backing array
@@ -1589,6 +1596,7 @@ func (fr *Frame) sliceOp(st *State, x *ssa.Slice) *Val {
 		h := st.heapGet(key, SArr(SInt, SArr(SInt, sortOf(arr.Elem()))))
 		st.heapSet(key, Store(h, s.X, av.X))
 		s.Off = lo
+		wholeBytes(av.X)
 		c.note("%s: slice of interior array modelled as a copy (writes through it are not propagated)", fr.Fn)
 		return s
 	}
